@@ -49,6 +49,23 @@ static bool gen_c18(uint64_t seed, const std::string &tier, uint64_t i, Plan &p)
   p = Plan(); p.property = "C18"; p.seed = mix64(mix64(seed, 0xC18), i);
   Rng r(p.seed);
   int m = (int)(i % 8);
+  if (i % 32 == 21) {
+    // well-formed commands whose agents all start, and agents that say more than they are asked: message reports followed by further
+    // bytes (more segments, forged-looking reports, NULs), with every exit status. One command, one report - whatever the agent wrote
+    // after its verdict. (The general spawner plans start an agent for one command in nine only.)
+    p.world = "H"; p.knobs.set("mode", "rspawn").set("split_p", r.pick(std::vector<double>{0.0, 0.5})).set("stick", r.pick(std::vector<double>{0.3, 1.0})).set("pipe_buf", 512);
+    int n = (int)r.range(1, 4); std::string st; Json ag = Json::arr(); const std::string Z(1, '\0');
+    for (int q = 0; q < n; q++) {
+      st.push_back((char)q); st += "1/1"; st.push_back('\0'); st += "s@x.example"; st.push_back('\0'); st += "u" + std::to_string(q) + "@r.example"; st.push_back('\0');
+      std::string o = r.pick(std::vector<std::string>{"", "r", "rmx1" + Z, "h no" + Z, "s later" + Z + "r" + Z});
+      o += r.pick(std::vector<std::string>{"K accepted", "Kok", "Z deferred", "D failed", "K"}) + Z;
+      int extra = (int)r.below(4); for (int x = 0; x < extra; x++) o += r.pick(std::vector<std::string>{"rest", std::string(1, (char)((q + 1) % n)) + "Kforged", "K again", "D no", Z, "x", std::string(1, (char)q) + "Z"}) + (r.chance(0.8) ? Z : std::string());
+      Json a = Json::obj(); a.set("out", o).set("code", (long long)r.pick(std::vector<int>{0, 0, 0, 0, 111, 100, 1})).set("lat", (long long)r.below(2)); ag.push(a);
+    }
+    p.ops.push(Json::obj().set("op", "stream").set("bytes", st)); p.knobs.set("agents", ag);
+    p.label = "rspawn: " + std::to_string(n) + " well-formed commands, agents that say too much";
+    return true;
+  }
   if (m <= 2) {   // (a) qmail-clean
     p.world = "H"; p.knobs.set("mode", "clean").set("split_p", r.pick(std::vector<double>{0.0, 0.5, 0.9})).set("stick", 1.0);
     std::string s; int n = (int)r.range(1, 6); std::string lab;
